@@ -581,3 +581,63 @@ def mixture_is_union(parts):
     if sorted(map(key, bonds)) != sorted(map(key, gm['bonds'])):
         return False, 'bonds differ (as a multiset with orientation)'
     return True, 'same bond order' if bonds == gm['bonds'] else 'bond order differs'
+
+
+# ----------------------------------------------------------------------------- A-graph for renumbered molecules (C03)
+def renumbering_relation(rng, smi):
+    """How RDKit's raw graph of a molecule relates to the raw graph of the same molecule object with its heavy atoms renumbered
+    at random (`Chem.RenumberAtoms`): with π the renumbering extended to the hydrogens (k-th hydrogen of a heavy atom ↦ k-th
+    hydrogen of its image), are the atoms at π(i) identical, the bonds identical as a multiset (begin/end and stereo reference
+    atoms included), the rings identical as an ordered list / up to rotation-reflection of each ring / as a set?  This is where
+    `MolIso` (C03_decompose_relabel), `RingEquiv` (C03_aromatize_rotation_reflection) and the ring-order theorem literally
+    apply.  Returns a short class name, or None."""
+    m = Chem.MolFromSmiles(smi)
+    if m is None or m.GetNumAtoms() < 2:
+        return None
+    n = m.GetNumAtoms()
+    order = list(range(n))
+    rng.shuffle(order)
+    m2 = Chem.RenumberAtoms(m, order)
+    g1, g2 = raw_graph(m), raw_graph(m2)
+    if g1 is None or g2 is None or any(a[0] == 1 for a in g1['atoms'][:n]):
+        return None
+    pos = {old: new for new, old in enumerate(order)}
+
+    def hyd(g):
+        d = collections.defaultdict(list)
+        for b in g['bonds']:
+            for x, y in ((b[0], b[1]), (b[1], b[0])):
+                if x < n and y >= n:
+                    d[x].append(y)
+        return d
+    h1, h2 = hyd(g1), hyd(g2)
+    pi = {}
+    for a in range(n):
+        pi[a] = pos[a]
+        if len(h1[a]) != len(h2[pos[a]]):
+            return 'other'
+        for u, v in zip(h1[a], h2[pos[a]]):
+            pi[u] = v
+    N = len(g1['atoms'])
+    if len(pi) != N or len(g2['atoms']) != N:
+        return 'other'
+    atoms = [None] * N
+    for k, a in enumerate(g1['atoms']):
+        atoms[pi[k]] = a
+    if atoms != g2['atoms']:
+        return 'other'
+    bonds = [[pi[b[0]], pi[b[1]], b[2], b[3], b[4], [pi[s] for s in b[5]]] for b in g1['bonds']]
+    if sorted(map(json.dumps, bonds)) != sorted(map(json.dumps, g2['bonds'])):
+        return 'bonds_differ(stereo_reference_atoms_or_orientation)'
+    rings = [[pi[x] for x in r] for r in g1['rings']]
+    if rings == g2['rings']:
+        return 'MolIso'
+
+    def norm(r):
+        rots = [tuple(r[i:] + r[:i]) for i in range(len(r))] + [tuple(r[::-1][i:] + r[::-1][:i]) for i in range(len(r))]
+        return min(rots)
+    if [norm(r) for r in rings] == [norm(r) for r in g2['rings']]:
+        return 'MolIso_up_to_ring_rotation'
+    if sorted(norm(r) for r in rings) == sorted(norm(r) for r in g2['rings']):
+        return 'MolIso_up_to_ring_rotation_and_order'
+    return 'other'
